@@ -7,6 +7,7 @@ import (
 	"fmt"
 	"go/types"
 	"math"
+	"regexp"
 	"strconv"
 	"strings"
 
@@ -420,3 +421,51 @@ func init() {
 func (in *Interp) callNative(nf *nativeFunc, args []value) value { return nf.fn(in, args) }
 
 var _ = ssa.Function{}
+
+func init() {
+	// regexp.MatchString(pattern, s): the real function on concrete operands, otherwise an
+	// uninterpreted predicate of the bytes of s (per pattern and length), nil error.
+	externals["regexp.MatchString"] = func(in *Interp, fr *frame, args []value) value {
+		pat, ok1 := args[0].(string)
+		if !ok1 {
+			panic(unsupported{"regexp.MatchString with symbolic pattern"})
+		}
+		if s, ok := args[1].(string); ok {
+			m, err := regexp.MatchString(pat, s)
+			if err != nil {
+				return tuple{in.tb.False, in.newError(err.Error())}
+			}
+			return tuple{in.tb.Bool(m), nilError()}
+		}
+		if _, err := regexp.Compile(pat); err != nil {
+			return tuple{in.tb.False, in.newError(err.Error())}
+		}
+		bs := in.bytesOf(args[1])
+		if len(bs) == 0 {
+			m, _ := regexp.MatchString(pat, "")
+			return tuple{in.tb.Bool(m), nilError()}
+		}
+		return tuple{in.tb.UF(fmt.Sprintf("re_%x_%d", []byte(pat), len(bs)), SBool, bs...), nilError()}
+	}
+}
+
+func init() {
+	cmp := func(in *Interp, fr *frame, args []value) value {
+		a, ok1 := args[0].(string)
+		b, ok2 := args[1].(string)
+		if ok1 && ok2 {
+			return in.intConst(int64(strings.Compare(a, b)))
+		}
+		if in.branch(in.strEq(args[0], args[1])) {
+			return in.intConst(0)
+		}
+		if in.branch(in.strLess(args[0], args[1])) {
+			return in.intConst(-1)
+		}
+		return in.intConst(1)
+	}
+	externals["internal/bytealg.abigen_runtime_cmpstring"] = cmp
+	externals["internal/bytealg.CompareString"] = cmp
+	externals["runtime.cmpstring"] = cmp
+	externals["strings.Compare"] = cmp
+}
